@@ -45,6 +45,10 @@ def scenario : Sexp → Option Sexp
   | .list [.atom "dec", .list s] => do
     let s ← nats s
     some (.list [outNat (b64ToInt s)])
+  | .list [.atom "b2", .list b, l] => do
+    -- the two "front of a primitive" helpers on the same arbitrary target: sextets as chars, sextets as bytes
+    let b ← nats b; let l ← nat? l
+    some (.list [outList (codeB2ToB64 b l), outList (nabSextets b l)])
   | _ => none
 
 /-- a history of arbitrary calls: each answered on its own (the functions are pure) -/
